@@ -4,7 +4,7 @@ _C44_NOTE = ("The race detector is happens-before based: it reports an unsynchro
 WIP["C44"] = dict(
     level="exploration", engine="E5",
     technique="generated concurrent programs (k goroutines x short operation lists over one shared object, drawn with rapid) executed under the Go race detector with a watchdog; operations are the calls miner/sharder workers and handlers make (roots documented per operation); differential cross-check of ValidateTransactions' verdict",
-    level_text="Four parts, each its own -race test binary run with GORACE=halt_on_error: (a) one round.Round (notarized/proposed block lists, VRF shares, seeds and ranks, phase, finalizing state, timeouts, restart, clone), (b) one published block.Block (ticket add/merge/read, notarization flag, previous-block link, state status / block state / verification status, client state, unique extensions, msgpack encoding, clone), (c) miner ValidateTransactions over generated blocks with >= 2 batches, invalid transactions of five kinds at drawn positions, the current round moving on meanwhile, 1..3 blocks validated concurrently, (d) one chain.Chain: block map (AddBlock / AddRoundBlock / AddNotarizedBlockToRound / GetBlock(Clone) / SetBlock / delete dead blocks / PruneChain), round map (AddRound / GetRound / GetRoundClone / DeleteRoundsBelow), current round, latest deterministic block. Programs: node type (miner or sharder, which selects the admissible operations), 0..4 sequential set-up operations, 2..4 goroutines x 1..6 operations, repeated on fresh objects; block objects are private to a goroutine until published through the chain or round, as in the real code. " + _C44_NOTE,
+    level_text="Five parts, each its own -race test binary run with GORACE=halt_on_error: (a) one round.Round (notarized/proposed block lists, VRF shares, seeds and ranks, phase, finalizing state, timeouts, restart, clone), (b) one published block.Block (ticket add/merge/read, notarization flag, previous-block link, state status / block state / verification status, client state, unique extensions, msgpack encoding, clone), (c) miner ValidateTransactions over generated blocks with >= 2 batches, invalid transactions of five kinds at drawn positions, the current round moving on meanwhile, 1..3 blocks validated concurrently, (d) one chain.Chain: block map (AddBlock / AddRoundBlock / AddNotarizedBlockToRound / GetBlock(Clone) / SetBlock / delete dead blocks / PruneChain), round map (AddRound / GetRound / GetRoundClone / DeleteRoundsBelow), current round, latest deterministic block, (e) one miner.Round (verification channel, collected tickets, own share/ticket, cancel functions, restart). Programs: node type (miner or sharder, which selects the admissible operations), 0..4 sequential set-up operations, 2..4 goroutines x 1..6 operations, repeated on fresh objects; block objects are private to a goroutine until published through the chain or round, as in the real code. " + _C44_NOTE,
     level_note="Operations that only run before an object is shared (SetRoundRandomSeed, HashBlock ...) and dead code (Round.UpdateNotarizedBlock, SetFinalized) are not generated. Direct reads/writes of exported struct fields from other packages are outside the property's quantifier (exported operations) and are not generated, except walking the slices the getters return. Open known findings exclude the named operation pairs by construction.",
     parts=[
         dict(pkg="0chain.net/chaincore/round", run="^TestC44_Round$", race=True, quick=1500, thorough=64000, floor=50,
@@ -12,6 +12,8 @@ WIP["C44"] = dict(
         dict(pkg="0chain.net/chaincore/block", run="^TestC44_Block$", race=True, quick=1500, thorough=64000, floor=50,
              timeout_quick=600, timeout_thorough=1500),
         dict(pkg="0chain.net/miner", run="^TestC44_ValidateTransactions$", race=True, quick=400, thorough=16000, floor=20,
+             timeout_quick=600, timeout_thorough=1500),
+        dict(pkg="0chain.net/miner", run="^TestC44_MinerRound$", race=True, quick=1500, thorough=48000, floor=20,
              timeout_quick=600, timeout_thorough=1500),
         dict(pkg="0chain.net/chaincore/chain", run="^TestC44_ChainMaps$", race=True, quick=350, thorough=8000, floor=30,
              timeout_quick=900, timeout_thorough=2400),
